@@ -453,8 +453,12 @@ func c01Grid() []pacerCase {
 			out = append(out, pacerCase{Kind: "constant", Freq: f, Per: p})
 		}
 	}
-	for _, fp := range [][2]int64{{2, 1}, {1, 1}, {3, 2}, {1000, 999}, {1 << 40, 1000}, {math.MaxInt64, 1}, {math.MaxInt64, math.MaxInt64}, {1, math.MaxInt64}, {5, 10}, {10, 100}, {1, 10}} {
+	for _, fp := range [][2]int64{{2, 1}, {1, 1}, {3, 2}, {1000, 999}, {1 << 40, 1000}, {math.MaxInt64, 1}, {math.MaxInt64, math.MaxInt64}, {1, math.MaxInt64}, {5, 10}, {10, 100}, {1, 10},
+		// just above and just below one hit per nanosecond at magnitudes where float64 can no longer tell Freq from Per
+		{1<<53 + 1, 1 << 53}, {1 << 53, 1<<53 + 1}, {1 << 53, 1 << 53}, {1<<62 + 1, 1 << 62}, {1 << 62, 1<<62 + 1}, {math.MaxInt64, math.MaxInt64 - 1}, {math.MaxInt64 - 1, math.MaxInt64},
+		{1<<53 + 1, 1<<53 - 1}, {1<<31 + 1, 1 << 31}, {1 << 31, 1<<31 + 1}} {
 		out = append(out, pacerCase{Kind: "constant", Freq: int(fp[0]), Per: fp[1]})
+		out = append(out, pacerCase{Kind: "linear", Freq: int(fp[0]), Per: fp[1], Slope: 0})
 	}
 	// degenerate
 	for _, fp := range [][2]int64{{0, sec}, {1, 0}, {0, 0}, {-1, sec}, {1, -sec}, {-1, -sec}, {math.MinInt64, sec}, {1, math.MinInt64}} {
